@@ -7,23 +7,23 @@ import NjectProofs.IncludeSym
 namespace Nject
 
 /-- the update leaves position, classification and the must-consume switches alone -/
-def Keeps (g : IP → IP) : Prop := ∀ f, (g f).pos = f.pos ∧ (g f).mcRet = f.mcRet ∧ (g f).c = f.c
+def Keeps (g : IP → IP) : Prop := ∀ f, (g f).pos = f.pos ∧ (g f).mcRet = f.mcRet ∧ (g f).c = f.c ∧ (g f).mcOut = f.mcOut
 
 /-- same length, and position by position the same static fields -/
 def SF (ch ch' : Chain) : Prop :=
-  ch'.length = ch.length ∧ ∀ j, (ch'.get j).pos = (ch.get j).pos ∧ (ch'.get j).mcRet = (ch.get j).mcRet ∧ (ch'.get j).c = (ch.get j).c
+  ch'.length = ch.length ∧ ∀ j, (ch'.get j).pos = (ch.get j).pos ∧ (ch'.get j).mcRet = (ch.get j).mcRet ∧ (ch'.get j).c = (ch.get j).c ∧ (ch'.get j).mcOut = (ch.get j).mcOut
 
-theorem SF_refl (ch : Chain) : SF ch ch := ⟨rfl, fun _ => ⟨rfl, rfl, rfl⟩⟩
+theorem SF_refl (ch : Chain) : SF ch ch := ⟨rfl, fun _ => ⟨rfl, rfl, rfl, rfl⟩⟩
 
 theorem SF_trans {a b c : Chain} (h1 : SF a b) (h2 : SF b c) : SF a c :=
-  ⟨h2.1.trans h1.1, fun j => ⟨(h2.2 j).1.trans (h1.2 j).1, (h2.2 j).2.1.trans (h1.2 j).2.1, (h2.2 j).2.2.trans (h1.2 j).2.2⟩⟩
+  ⟨h2.1.trans h1.1, fun j => ⟨(h2.2 j).1.trans (h1.2 j).1, (h2.2 j).2.1.trans (h1.2 j).2.1, (h2.2 j).2.2.1.trans (h1.2 j).2.2.1, (h2.2 j).2.2.2.trans (h1.2 j).2.2.2⟩⟩
 
 theorem SF_upd (ch : Chain) (i : Nat) (g : IP → IP) (hg : Keeps g) : SF ch (ch.upd i g) := by
   refine ⟨upd_length ch i g, fun j => ?_⟩
   rw [get_upd]
   split
   · rename_i hc; rw [hc.1]; exact hg (ch.get i)
-  · exact ⟨rfl, rfl, rfl⟩
+  · exact ⟨rfl, rfl, rfl, rfl⟩
 
 theorem SF_map (ch : Chain) (g : IP → IP) (hg : Keeps g) : SF ch (ch.map g) := by
   refine ⟨by simp, fun j => ?_⟩
@@ -32,14 +32,14 @@ theorem SF_map (ch : Chain) (g : IP → IP) (hg : Keeps g) : SF ch (ch.map g) :=
       simp [Chain.get, List.getD, List.getElem?_map, List.getElem?_eq_getElem hj]
     rw [this]; exact hg (ch.get j)
   · rw [get_default_of_ge _ j (by simpa using hj), get_default_of_ge ch j hj]
-    exact ⟨rfl, rfl, rfl⟩
+    exact ⟨rfl, rfl, rfl, rfl⟩
 
 theorem SF_of_FR {ch ch' : Chain} (h : FR ch ch') : SF ch ch' := by
   refine ⟨h.1, fun j => ?_⟩
   have := h.2 j
   unfold flagsOnly at this
   rw [← this]
-  exact ⟨rfl, rfl, rfl⟩
+  exact ⟨rfl, rfl, rfl, rfl⟩
 
 theorem foldl_SF {α} (f : Chain → α → Chain) (hf : ∀ c a, SF c (f c a)) : ∀ (l : List α) (c : Chain), SF c (l.foldl f c)
   | [], c => SF_refl c
@@ -64,12 +64,12 @@ theorem depStep_SF (param : Param) (i : Nat) (t : Ty) (ch : Chain) (d : Nat) : S
       | .inp => { f with usesIn := appendAt f.usesIn t d, uses := f.uses ++ [d] }
       | .recv => { f with usesRecv := appendAt f.usesRecv t d, uses := f.uses ++ [d] }
       | .byp => { f with usesByp := appendAt f.usesByp t d, uses := f.uses ++ [d] }) := by
-    intro f; cases param <;> exact ⟨rfl, rfl, rfl⟩
+    intro f; cases param <;> exact ⟨rfl, rfl, rfl, rfl⟩
   have k2 : Keeps (fun g =>
       if (param != .recv) = true then { g with usedBy := g.usedBy ++ [i], usedByOut := appendAt g.usedByOut t i }
       else { g with usedBy := g.usedBy ++ [i], usedByRet := appendAt g.usedByRet t i }) := by
-    intro f; split <;> exact ⟨rfl, rfl, rfl⟩
-  have k3 : Keeps (fun f => { f with usedBy := f.usedBy ++ [d] }) := fun f => ⟨rfl, rfl, rfl⟩
+    intro f; split <;> exact ⟨rfl, rfl, rfl, rfl⟩
+  have k3 : Keeps (fun f => { f with usedBy := f.usedBy ++ [d] }) := fun f => ⟨rfl, rfl, rfl, rfl⟩
   have s12 := SF_trans (SF_upd ch i _ k1) (SF_upd _ d _ k2)
   apply ite_SF
   · exact SF_trans s12 (SF_upd _ i _ k3)
@@ -79,22 +79,22 @@ theorem typeStep_SF (ti : TyInfo) (avail : IMap) (param : Param) (i : Nat) (ch :
     SF ch (typeStep ti avail param i ch t) := by
   unfold typeStep
   split
-  · apply SF_upd; intro f; unfold errStep; cases param <;> exact ⟨rfl, rfl, rfl⟩
+  · apply SF_upd; intro f; unfold errStep; cases param <;> exact ⟨rfl, rfl, rfl, rfl⟩
   · refine SF_trans (SF_upd ch i _ ?_) (foldl_SF _ (fun c d => depStep_SF param i t c d) _ _)
-    intro f; unfold rmapStep; cases param <;> exact ⟨rfl, rfl, rfl⟩
+    intro f; unfold rmapStep; cases param <;> exact ⟨rfl, rfl, rfl, rfl⟩
 
 theorem requireParams_SF (ti : TyInfo) (ch : Chain) (i : Nat) (avail : IMap) (param : Param) :
     SF ch (requireParams ti ch i avail param) := by
   rw [requireParams_eq]
   refine SF_trans (SF_upd ch i _ ?_) (foldl_SF _ (fun c t => typeStep_SF ti avail param i c t) _ _)
-  intro f; unfold resetStep; cases param <;> exact ⟨rfl, rfl, rfl⟩
+  intro f; unfold resetStep; cases param <;> exact ⟨rfl, rfl, rfl, rfl⟩
 
 theorem provideParams_SF (ch : Chain) (i : Nat) (avail : IMap) (down : Bool) (layer : Nat) :
     SF ch (provideParams ch i avail down layer).1 := by
   unfold provideParams
   simp only []
   apply SF_upd
-  intro f; cases down <;> exact ⟨rfl, rfl, rfl⟩
+  intro f; cases down <;> exact ⟨rfl, rfl, rfl, rfl⟩
 
 theorem downStep_SF (ti : TyInfo) (initPos : Option Nat) (acc : Chain × IMap) (i : Nat) : SF acc.1 (downStep ti initPos acc i).1 := by
   obtain ⟨ch, avail⟩ := acc
@@ -109,7 +109,7 @@ theorem downStep_SF (ti : TyInfo) (initPos : Option Nat) (acc : Chain × IMap) (
     | some ip =>
       simp only []
       split
-      · have a1 : SF ch (ch.upd ip fun f => { f with bypassRmap := [] }) := SF_upd ch ip _ (fun f => ⟨rfl, rfl, rfl⟩)
+      · have a1 : SF ch (ch.upd ip fun f => { f with bypassRmap := [] }) := SF_upd ch ip _ (fun f => ⟨rfl, rfl, rfl, rfl⟩)
         have a2 := requireParams_SF ti (ch.upd ip fun f => { f with bypassRmap := [] }) ip avail .byp
         have a3 := requireParams_SF ti (requireParams ti (ch.upd ip fun f => { f with bypassRmap := [] }) ip avail .byp) i avail .inp
         have a4 := provideParams_SF (requireParams ti (requireParams ti (ch.upd ip fun f => { f with bypassRmap := [] }) ip avail .byp) i avail .inp) i avail true (i + 2)
@@ -126,7 +126,7 @@ theorem upStep_SF (ti : TyInfo) (n : Nat) (acc : Chain × IMap) (i : Nat) : SF a
 
 theorem providesReturns_SF (ti : TyInfo) (ch : Chain) (initPos : Option Nat) : SF ch (providesReturns ti ch initPos) := by
   rw [providesReturns_eq]
-  have h0 : SF ch (ch.map resetDeps) := SF_map ch resetDeps (fun f => ⟨rfl, rfl, rfl⟩)
+  have h0 : SF ch (ch.map resetDeps) := SF_map ch resetDeps (fun f => ⟨rfl, rfl, rfl, rfl⟩)
   have h1 := foldl_SF_pair (downStep ti initPos) (fun acc i => downStep_SF ti initPos acc i) (List.range ch.length) (ch.map resetDeps, ([] : IMap))
   have h2 := foldl_SF_pair (upStep ti ch.length) (fun acc i => upStep_SF ti ch.length acc i) (List.range ch.length).reverse
     (((List.range ch.length).foldl (downStep ti initPos) (ch.map resetDeps, ([] : IMap))).1, ([] : IMap))
@@ -144,8 +144,8 @@ theorem clusters_SF (ch : Chain) : SF ch (clusters ch) := by
   simp only []
   split
   · exact SF_refl c
-  · have ka : ∀ (x : Option (List Nat)), Keeps (fun f => { f with clusterMembers := x }) := fun _ _ => ⟨rfl, rfl, rfl⟩
-    have kw : Keeps (fun f => { f with wantedInCluster := true }) := fun _ => ⟨rfl, rfl, rfl⟩
+  · have ka : ∀ (x : Option (List Nat)), Keeps (fun f => { f with clusterMembers := x }) := fun _ _ => ⟨rfl, rfl, rfl, rfl⟩
+    have kw : Keeps (fun f => { f with wantedInCluster := true }) := fun _ => ⟨rfl, rfl, rfl, rfl⟩
     cases leaders.lookup (c.get i).c.cluster with
     | none =>
       simp only []
@@ -156,7 +156,7 @@ theorem clusters_SF (ch : Chain) : SF ch (clusters ch) := by
     | some l =>
       simp only []
       have s0 : SF c (c.upd l fun f => { f with clusterMembers := some ((f.clusterMembers.getD []) ++ [i]) }) :=
-        SF_upd c l _ (fun f => ⟨rfl, rfl, rfl⟩)
+        SF_upd c l _ (fun f => ⟨rfl, rfl, rfl, rfl⟩)
       have s1 : SF c ((c.upd l fun f => { f with clusterMembers := some ((f.clusterMembers.getD []) ++ [i]) }).upd i
           (fun f => { f with clusterMembers := none })) :=
         SF_trans s0 (SF_upd (c.upd l fun f => { f with clusterMembers := some ((f.clusterMembers.getD []) ++ [i]) }) i
@@ -175,7 +175,7 @@ theorem eliminateUnused_SF : ∀ (fuel : Nat) (check : List Nat) (ch : Chain), S
     · split
       · exact eliminateUnused_SF fuel check ch
       · refine SF_trans ?_ (eliminateUnused_SF fuel _ _)
-        exact SF_upd ch i _ (fun f => ⟨rfl, rfl, rfl⟩)
+        exact SF_upd ch i _ (fun f => ⟨rfl, rfl, rfl, rfl⟩)
 
 theorem tryWithout_SF (ch : Chain) (without : List Nat) : SF ch (tryWithout ch without) := by
   unfold tryWithout
@@ -186,16 +186,16 @@ theorem tryWithout_SF (ch : Chain) (without : List Nat) : SF ch (tryWithout ch w
       split
       · rename_i ch2 hv
         refine SF_trans ?_ (validate_SF false _ ch2 hv)
-        exact SF_upd ch _ _ (fun f => ⟨rfl, rfl, rfl⟩)
-      · refine SF_trans ?_ (SF_upd _ _ _ (fun f => ⟨rfl, rfl, rfl⟩))
-        exact SF_upd ch _ _ (fun f => ⟨rfl, rfl, rfl⟩)
+        exact SF_upd ch _ _ (fun f => ⟨rfl, rfl, rfl, rfl⟩)
+      · refine SF_trans ?_ (SF_upd _ _ _ (fun f => ⟨rfl, rfl, rfl, rfl⟩))
+        exact SF_upd ch _ _ (fun f => ⟨rfl, rfl, rfl, rfl⟩)
   · simp only []
     have kf : ∀ (ok : Bool) (c : Chain) (w : Nat), SF c (c.upd w fun f =>
         { f with excluded := ok, wanted := if f.wantedInCluster then true else f.wanted }) :=
-      fun ok c w => SF_upd c w _ (fun f => ⟨rfl, rfl, rfl⟩)
+      fun ok c w => SF_upd c w _ (fun f => ⟨rfl, rfl, rfl, rfl⟩)
     have k1 : ∀ (c : Chain) (w : Nat), SF c (c.upd w fun f =>
         { f with excluded := true, wanted := if f.wantedInCluster then false else f.wanted }) :=
-      fun c w => SF_upd c w _ (fun f => ⟨rfl, rfl, rfl⟩)
+      fun c w => SF_upd c w _ (fun f => ⟨rfl, rfl, rfl, rfl⟩)
     split
     · rename_i ch2 hv
       refine SF_trans (SF_trans ?_ (validate_SF false _ ch2 hv)) (foldl_SF _ (kf true) _ _)
@@ -228,8 +228,8 @@ theorem pruneStages_SF (ch : Chain) : SF ch (pruneStages ch) := by
   unfold pruneStages
   simp only []
   have m1 : SF ch (ch.map fun f => if f.cannot then { f with excluded := true, inc := false } else f) :=
-    SF_map ch _ (fun f => by split <;> exact ⟨rfl, rfl, rfl⟩)
-  refine SF_trans ?_ (SF_map _ _ (fun f => ⟨rfl, rfl, rfl⟩))
+    SF_map ch _ (fun f => by split <;> exact ⟨rfl, rfl, rfl, rfl⟩)
+  refine SF_trans ?_ (SF_map _ _ (fun f => ⟨rfl, rfl, rfl, rfl⟩))
   refine SF_trans ?_ (proposalLoop_SF _ _)
   refine SF_trans ?_ (eliminateUnused_SF _ _ _)
   refine SF_trans ?_ (clusters_SF _)
@@ -261,5 +261,31 @@ theorem inclusionBeforeFinal_static (ti : TyInfo) (funcs : List CP) (cannot0 : L
     have hj' : j < funcs.length := by rw [← hl]; exact hj
     have ⟨p, m⟩ := initState_get funcs cannot0 j hj'
     exact ⟨(s.2 j).1.trans p, (s.2 j).2.1.trans m⟩
+
+theorem initState_mcOut (funcs : List CP) (cannot0 : List Nat) (j : Nat) :
+    ((initState funcs cannot0).get j).mcOut = ((initState funcs cannot0).get j).c.hasMustConsume := by
+  by_cases hj : j < funcs.length
+  · unfold initState Chain.get
+    have hz : j < (funcs.zip (List.range funcs.length)).length := by simp [hj]
+    simp [List.getD, List.getElem?_map, List.getElem?_eq_getElem hz]
+  · rw [get_default_of_ge _ j (by rw [initState_length]; exact hj)]
+    rfl
+
+/-- the must-consume switch of the outputs is the classification's, all the way to the final validation -/
+theorem inclusionBeforeFinal_mcOut (ti : TyInfo) (funcs : List CP) (cannot0 : List Nat) (pre : Chain)
+    (h : inclusionBeforeFinal ti funcs cannot0 = .ok pre) :
+    ∀ j, (pre.get j).mcOut = (pre.get j).c.hasMustConsume := by
+  unfold inclusionBeforeFinal at h
+  split at h
+  · cases h
+  · rename_i ch1 hv
+    injection h with h
+    subst h
+    unfold firstValidation at hv
+    have s : SF (initState funcs cannot0) (providesReturns ti (pruneStages ch1) (initPosOf funcs)) :=
+      SF_trans (SF_trans (SF_trans (providesReturns_SF ti _ _) (validate_SF true _ ch1 hv)) (pruneStages_SF ch1)) (providesReturns_SF ti _ _)
+    intro j
+    rw [(s.2 j).2.2.2, (s.2 j).2.2.1]
+    exact initState_mcOut funcs cannot0 j
 
 end Nject
